@@ -24,6 +24,10 @@ enum Plain {
     Triples { bpp: usize, ul: u8 },
     /// full 4-byte groups hi16 x alpha x alpha (alpha empty = all 256 bytes)
     Groups { hi: u16, alpha: Vec<u8> },
+    /// xorshift64 bytes (incompressible)
+    Xs { seed: u64, len: usize },
+    /// xorshift64 bytes followed by a run of one byte (saving of the best zlib form tunable by `run`)
+    XsRun { seed: u64, len: usize, byte: u8, run: usize },
 }
 
 fn lcg_bytes(seed: u32, n: usize, mask: u8) -> Vec<u8> {
@@ -101,6 +105,32 @@ impl Plain {
                 }
                 out
             }
+            Plain::Xs { seed, len } => rc::xorshift_bytes(*seed, *len),
+            Plain::XsRun { seed, len, byte, run } => {
+                let mut out = rc::xorshift_bytes(*seed, *len);
+                out.resize(len + run, *byte);
+                out
+            }
+        }
+    }
+    /// the same generator with another length (Hex: a prefix)
+    fn with_len(&self, len: usize) -> Plain {
+        match self {
+            Plain::Hex(b) => Plain::Hex(b[..len.min(b.len())].to_vec()),
+            Plain::Lcg { seed, mask, .. } => Plain::Lcg { seed: *seed, len, mask: *mask },
+            Plain::Run { byte, .. } => Plain::Run { byte: *byte, len },
+            Plain::Pairs { .. } => Plain::Pairs { len },
+            Plain::Period { pat, .. } => Plain::Period { pat: pat.clone(), len },
+            Plain::Xs { seed, .. } => Plain::Xs { seed: *seed, len },
+            other => other.clone(),
+        }
+    }
+    fn len(&self) -> usize {
+        match self {
+            Plain::Hex(b) => b.len(),
+            Plain::Lcg { len, .. } | Plain::Run { len, .. } | Plain::Pairs { len } | Plain::Period { len, .. } | Plain::Xs { len, .. } => *len,
+            Plain::XsRun { len, run, .. } => len + run,
+            other => other.bytes().len(),
         }
     }
     fn of(b: &[u8]) -> Plain {
@@ -115,6 +145,8 @@ impl Plain {
             Plain::Period { pat, len } => json!({"gen": "period", "pat_hex": hex(pat), "len": len}),
             Plain::Triples { bpp, ul } => json!({"gen": "triples", "bpp": bpp, "ul": ul}),
             Plain::Groups { hi, alpha } => json!({"gen": "groups", "hi": hi, "alpha_hex": hex(alpha)}),
+            Plain::Xs { seed, len } => json!({"gen": "xorshift64", "seed": seed, "len": len}),
+            Plain::XsRun { seed, len, byte, run } => json!({"gen": "xorshift64+run", "seed": seed, "len": len, "byte": byte, "run": run}),
         }
     }
     fn from_json(v: &Value) -> Plain {
@@ -129,6 +161,8 @@ impl Plain {
             Some("period") => Plain::Period { pat: unhex(v["pat_hex"].as_str().unwrap_or("00")), len: u("len") as usize },
             Some("triples") => Plain::Triples { bpp: u("bpp") as usize, ul: u("ul") as u8 },
             Some("groups") => Plain::Groups { hi: u("hi") as u16, alpha: unhex(v["alpha_hex"].as_str().unwrap_or("")) },
+            Some("xorshift64") => Plain::Xs { seed: u("seed"), len: u("len") as usize },
+            Some("xorshift64+run") => Plain::XsRun { seed: u("seed"), len: u("len") as usize, byte: u("byte") as u8, run: u("run") as usize },
             _ => machinery("replay: unknown plain descriptor"),
         }
     }
@@ -192,9 +226,13 @@ impl Pred {
 #[derive(Clone, Debug, PartialEq)]
 enum Enc {
     Stored(usize),
+    /// stored blocks behind any legal zlib header (CINFO 0..7, FLEVEL 0..3)
+    StoredW { block: usize, cinfo: u8, flevel: u8 },
     Level(u32),
     Lzw { clear_after: Option<u16> },
     A85 { use_z: bool, eod: bool, ws: Option<(usize, Vec<u8>)> },
+    /// ASCII85 broken into lines of `line` characters by `eol` (the usual form of large data)
+    A85Wrap { use_z: bool, line: usize, eol: Vec<u8> },
 }
 
 #[derive(Clone, Debug, PartialEq)]
@@ -253,6 +291,7 @@ impl Stage {
         };
         match (&self.enc, self.f) {
             (Enc::Stored(b), F::Flate) => rc::zlib_stored(data, *b),
+            (Enc::StoredW { block, cinfo, flevel }, F::Flate) => rc::zlib_stored_hdr(data, *block, *cinfo, *flevel),
             (Enc::Level(l), F::Flate) => rc::zlib_flate2(data, *l),
             (Enc::Lzw { clear_after }, F::Lzw) => {
                 rc::lzw_encode(data, rc::LzwOpts { early_change: self.early.map(|e| e != 0).unwrap_or(true), clear_after: *clear_after })
@@ -266,6 +305,17 @@ impl Stage {
                 if *eod {
                     e.extend_from_slice(b"~>");
                 }
+                e
+            }
+            (Enc::A85Wrap { use_z, line, eol }, F::A85) => {
+                let body = rc::a85_encode_body(data, *use_z);
+                let line = (*line).max(1);
+                let mut e = Vec::with_capacity(body.len() + (body.len() / line + 1) * eol.len() + 2);
+                for ch in body.chunks(line) {
+                    e.extend_from_slice(ch);
+                    e.extend_from_slice(eol);
+                }
+                e.extend_from_slice(b"~>");
                 e
             }
             _ => machinery("stage encoder does not match its filter"),
@@ -340,10 +390,12 @@ impl Case {
                 };
                 let enc = match &s.enc {
                     Enc::Stored(b) => json!({"stored_block": b}),
+                    Enc::StoredW { block, cinfo, flevel } => json!({"stored_block": block, "zlib_cinfo": cinfo, "zlib_flevel": flevel}),
                     Enc::Level(l) => json!({"flate2_level": l}),
                     Enc::Lzw { clear_after } => json!({"lzw_clear_after": clear_after}),
                     Enc::A85 { use_z, eod, ws } => json!({"a85_use_z": use_z, "eod": eod,
                         "ws": ws.as_ref().map(|(p, w)| json!({"pos": p, "bytes_hex": hex(w)}))}),
+                    Enc::A85Wrap { use_z, line, eol } => json!({"a85_use_z": use_z, "wrap_line": line, "eol_hex": hex(eol)}),
                 };
                 json!({"filter": s.f.name(), "predictor": pred, "EarlyChange": s.early, "encoder": enc})
             })
@@ -373,12 +425,16 @@ impl Case {
                     })
                 };
                 let e = &s["encoder"];
-                let enc = if let Some(b) = e["stored_block"].as_u64() {
+                let enc = if let (Some(b), Some(ci)) = (e["stored_block"].as_u64(), e["zlib_cinfo"].as_u64()) {
+                    Enc::StoredW { block: b as usize, cinfo: ci as u8, flevel: e["zlib_flevel"].as_u64().unwrap_or(0) as u8 }
+                } else if let Some(b) = e["stored_block"].as_u64() {
                     Enc::Stored(b as usize)
                 } else if let Some(l) = e["flate2_level"].as_u64() {
                     Enc::Level(l as u32)
                 } else if e.get("lzw_clear_after").is_some() {
                     Enc::Lzw { clear_after: e["lzw_clear_after"].as_u64().map(|x| x as u16) }
+                } else if let Some(line) = e["wrap_line"].as_u64() {
+                    Enc::A85Wrap { use_z: e["a85_use_z"].as_bool().unwrap_or(true), line: line as usize, eol: unhex(e["eol_hex"].as_str().unwrap_or("0a")) }
                 } else {
                     let ws = if e["ws"].is_null() {
                         None
@@ -860,6 +916,35 @@ fn part3_a85(cx: &Ctx) {
         cx.check(&ws_cases[i]);
     });
     run.add("a85_whitespace_and_eod_cases", ws_cases.len() as u64);
+    // (f) sizes: plain and encoded lengths around 2^12 .. 2^16 and 2^20, binary and zero data, one
+    // long line and the usual wrapped form
+    let mut sizes: Vec<usize> = vec![];
+    for k in [12u32, 13, 14, 15, 16, 20] {
+        let t = 1usize << k;
+        sizes.extend([t - 1, t, t + 1, t + 2, t + 3]);
+        // encoded length 5n/4 + 2 around t
+        let n = (t - 2) * 4 / 5;
+        sizes.extend(n.saturating_sub(3)..=n + 2);
+    }
+    sizes.sort();
+    sizes.dedup();
+    let mut sz_cases = vec![];
+    for n in &sizes {
+        for pl in [Plain::Xs { seed: 9, len: *n }, Plain::Run { byte: 0, len: *n }, Plain::Lcg { seed: 3, len: *n, mask: 0x80 }] {
+            for use_z in [true, false] {
+                sz_cases.push(a85_case("a85 sizes", pl.clone(), use_z, true, None));
+            }
+            for (line, eol) in [(64usize, &b"\n"[..]), (80, &b"\r\n"[..]), (255, &b"\r"[..])] {
+                let mut st = Stage::plain(F::A85);
+                st.enc = Enc::A85Wrap { use_z: true, line, eol: eol.to_vec() };
+                sz_cases.push(Case::single("a85 sizes", st, Parms::None, pl.clone()));
+            }
+        }
+    }
+    util::par_for(sz_cases.len(), |i| {
+        cx.check(&sz_cases[sz_cases.len() - 1 - i]);
+    });
+    run.add("a85_size_cases", sz_cases.len() as u64);
     run.sample(json!({"part": "3 ascii85", "case": ws_cases[ws_cases.len() / 2].to_json()}));
 }
 
@@ -1042,6 +1127,10 @@ fn part4_lzw(cx: &Ctx) {
         Plain::Period { pat: b"ab".to_vec(), len: 3_000_000 },
         Plain::Period { pat: b"abc".to_vec(), len: 2_000_000 },
         Plain::Period { pat: vec![0, 0, 1, 0, 1, 1, 0], len: 1_000_000 },
+        // incompressible data around and beyond 2^16 / 2^17 / 2^20 (the table is reset every ~4k bytes)
+        Plain::Xs { seed: 4, len: 65_537 },
+        Plain::Xs { seed: 5, len: 131_075 },
+        Plain::Xs { seed: 6, len: (1 << 20) + 1 },
     ];
     let windows: Vec<u16> = [510u16, 1022, 2046, 4092].iter().flat_map(|e| *e..*e + 5).collect();
     let mut work: Vec<(usize, bool, usize)> = vec![]; // (generator, early, prefix length)
@@ -1094,13 +1183,7 @@ fn part4_lzw(cx: &Ctx) {
         run.eval(1);
         run.nontrivial(1);
         if !decode_stream(&s, plain, false).ok() {
-            let pl = match &gens[gi] {
-                Plain::Pairs { .. } => Plain::Pairs { len },
-                Plain::Lcg { seed, mask, .. } => Plain::Lcg { seed: *seed, len, mask: *mask },
-                Plain::Run { byte, .. } => Plain::Run { byte: *byte, len },
-                Plain::Period { pat, .. } => Plain::Period { pat: pat.clone(), len },
-                other => other.clone(),
-            };
+            let pl = gens[gi].with_len(len);
             cx.confirm(&lzw_case("lzw long", pl, if explicit { Some(early as i64) } else { None }, None));
         }
     });
@@ -1115,10 +1198,22 @@ fn part4_lzw(cx: &Ctx) {
             }
         }
     }
+    // (d) sizes around 2^16 / 2^17 / 2^20 / 2^23 (whole inputs; generic path)
+    let mut big = vec![];
+    for e in earlies {
+        for n in [65_535usize, 65_536, 65_537, 131_071, 131_072, 131_073, (1 << 20) - 1, 1 << 20, (1 << 20) + 1] {
+            big.push(lzw_case("lzw sizes", Plain::Xs { seed: 7, len: n }, e, None));
+            big.push(lzw_case("lzw sizes", Plain::Lcg { seed: 8, len: n, mask: 0x0f }, e, None));
+        }
+        big.push(lzw_case("lzw sizes", Plain::Run { byte: 0, len: (1 << 23) + 1 }, e, None));
+        big.push(lzw_case("lzw sizes", Plain::Period { pat: b"ab".to_vec(), len: (1 << 22) + 3 }, e, None));
+    }
+    cc.extend(big.iter().cloned());
     util::par_for(cc.len(), |i| {
-        cx.check(&cc[i]);
+        cx.check(&cc[cc.len() - 1 - i]);
     });
-    run.add("lzw_clear_policy_cases", cc.len() as u64);
+    run.add("lzw_size_cases", big.len() as u64);
+    run.add("lzw_clear_policy_cases", (cc.len() - big.len()) as u64);
     run.sample(json!({"part": "4 lzw", "case": cc[cc.len() / 2].to_json()}));
 }
 
@@ -1412,6 +1507,7 @@ fn the_stream(doc: &mut Document) -> &mut Stream {
 fn op_apply(st: &mut OpState, op: Op, menu: &[(String, Vec<u8>)]) -> Vec<String> {
     let mut bad = vec![];
     let before_len = the_stream(&mut st.doc).content.len();
+    let before_written = if matches!(op, Op::SCompress | Op::DCompress) { doc_written_size(&st.doc) } else { 0 };
     let had_filter = the_stream(&mut st.doc).dict.has(b"Filter");
     match op {
         Op::SCompress | Op::DCompress => {
@@ -1427,6 +1523,10 @@ fn op_apply(st: &mut OpState, op: Op, menu: &[(String, Vec<u8>)]) -> Vec<String>
                 Err(p) => bad.push(p),
                 Ok(Err(e)) => bad.push(format!("compress returned Err: {}", e)),
                 Ok(Ok(())) => {}
+            }
+            let after_written = doc_written_size(&st.doc);
+            if after_written > before_written {
+                bad.push(format!("compress made the file holding the stream longer: {} -> {} bytes", before_written, after_written));
             }
             let s = the_stream(&mut st.doc);
             if s.content.len() > before_len {
@@ -1637,6 +1737,644 @@ fn replay_ops(case: &Value) -> Vec<String> {
 }
 
 // ---------------------------------------------------------------------------------------------
+// part 8: Flate size boundaries, decode direction
+
+fn flate_case(part: &str, plain: Plain, enc: Enc) -> Case {
+    let mut st = Stage::plain(F::Flate);
+    st.enc = enc;
+    Case::single(part, st, Parms::None, plain)
+}
+
+fn flate_encode(enc: &Enc, data: &[u8]) -> Vec<u8> {
+    let mut st = Stage::plain(F::Flate);
+    st.enc = enc.clone();
+    st.encode(data)
+}
+
+/// Smallest prefix length n of `data` (found by bisection; the encoded length is not strictly
+/// monotone, so this is *a* crossing) with encoded length > target while n-1 gives <= target.
+fn len_crossing(data: &[u8], enc: &Enc, target: usize) -> Option<usize> {
+    let c = |n: usize| flate_encode(enc, &data[..n]).len();
+    // estimate the ratio on a sample to start from a narrow bracket
+    let sample = data.len().min(target.max(4096));
+    let est = (target as f64 * sample as f64 / c(sample) as f64) as usize;
+    let (mut lo, mut hi) = ((est * 4 / 5).min(data.len()), (est * 5 / 4 + 64).min(data.len()));
+    if c(lo) > target {
+        lo = 0;
+    }
+    if c(hi) <= target {
+        hi = data.len();
+        if c(hi) <= target {
+            return None;
+        }
+    }
+    while hi - lo > 1 {
+        let mid = lo + (hi - lo) / 2;
+        if c(mid) > target {
+            hi = mid;
+        } else {
+            lo = mid;
+        }
+    }
+    Some(hi)
+}
+
+fn part8_flate_sizes(cx: &Ctx) {
+    let run = cx.run;
+    let mut cases: Vec<Case> = vec![];
+    // (a) expansion ratio: constant runs and short periods of 2^20 .. 2^23 bytes and beyond; deflate
+    // reaches 1032:1 in the limit (258 bytes per 2 bits), flate2's best level gets past 1024:1 at ~4 MiB
+    let m = 1usize << 20;
+    let mut big_sizes = vec![m - 1, m, m + 1, 2 * m, 2 * m + 1, 3 * m, 4 * m - 1, 4 * m, 4 * m + 1, 5 * m + 7, 8 * m, 8 * m + 1];
+    if run.thorough {
+        big_sizes.extend([16 * m + 1, 32 * m, 64 * m + 1, 256 * m + 1]);
+    }
+    for (k, n) in big_sizes.iter().enumerate() {
+        for lvl in [9u32, 6, 1] {
+            cases.push(flate_case("flate ratio", Plain::Run { byte: 0, len: *n }, Enc::Level(lvl)));
+        }
+        if *n > 64 * m {
+            continue;
+        }
+        let others = [
+            Plain::Run { byte: 0xff, len: *n },
+            Plain::Run { byte: b'a', len: *n },
+            Plain::Period { pat: b"ab".to_vec(), len: *n },
+            Plain::Period { pat: vec![0, 0, 1], len: *n },
+            Plain::Period { pat: vec![0, 0, 1, 0, 1, 1, 0], len: *n },
+        ];
+        for (j, pl) in others.iter().enumerate() {
+            cases.push(flate_case("flate ratio", pl.clone(), Enc::Level(9)));
+            if (j + k) % 2 == 0 {
+                cases.push(flate_case("flate ratio", pl.clone(), Enc::Level(if j % 2 == 0 { 6 } else { 1 })));
+            }
+        }
+    }
+    let n_ratio = cases.len();
+    // (b) output length around every power of two 2^9 .. 2^19, compressible and incompressible
+    for k in 9..=19u32 {
+        for d in [-1i64, 0, 1] {
+            let n = ((1i64 << k) + d) as usize;
+            for pl in [Plain::Run { byte: 0, len: n }, Plain::Period { pat: b"the quick brown fox ".to_vec(), len: n }, Plain::Xs { seed: 11, len: n }] {
+                for enc in [Enc::Level(1), Enc::Level(6), Enc::Level(9), Enc::Stored(65535)] {
+                    cases.push(flate_case("flate output sizes", pl.clone(), enc));
+                }
+            }
+        }
+    }
+    // (c) every legal zlib header in front of stored blocks
+    for cinfo in 0..8u8 {
+        for flevel in 0..4u8 {
+            for pl in [Plain::of(b""), Plain::of(b"hello world"), Plain::Xs { seed: 12, len: 70_000 }] {
+                cases.push(flate_case("flate zlib header", pl, Enc::StoredW { block: 65535, cinfo, flevel }));
+            }
+        }
+    }
+    // (d) rows wider than 2^16 bytes behind a predictor (Flate carrier; one LZW carrier)
+    let wide: [(i64, i64, i64); 9] = [(1, 8, 65_535), (1, 8, 65_536), (1, 8, 65_537), (3, 8, 21_846), (4, 16, 8_192), (4, 16, 8_193), (2, 16, 65_537), (1, 8, (1 << 20) + 1), (4, 16, 131_073)];
+    for (gi, (colors, bpc, columns)) in wide.iter().enumerate() {
+        let rb = rc::png_row_bytes(*colors as usize, *bpc as usize, *columns as usize);
+        let rows: Vec<u8> = vec![1, 2, 3, 4, 0, 2, 4, 3, 1];
+        let rows: Vec<u8> = if rb > (1 << 20) { rows[..5].to_vec() } else { rows };
+        for (carrier, parms) in [(F::Flate, Parms::Dict), (F::Flate, Parms::Array), (F::Lzw, Parms::Dict)] {
+            if carrier == F::Lzw && gi % 4 != 2 {
+                continue;
+            }
+            let mut st = Stage::plain(carrier);
+            if carrier == F::Flate {
+                st.enc = Enc::Level(6);
+            }
+            st.pred = Some(Pred { predictor: 15, colors: *colors, bpc: *bpc, columns: *columns, rows: rows.clone(), omit_defaults: false });
+            cases.push(Case::single("flate wide rows", st, parms, Plain::Lcg { seed: 21 + gi as u32, len: rb * rows.len(), mask: 0x1f }));
+        }
+    }
+    // (e) compressed length straddling 2^12 .. 2^17 (and 2^18, 2^20 for stored blocks): the plain length
+    // is found by bisection so that the encoded stream is just below / at / above the boundary
+    let mut combos: Vec<(Plain, Enc, usize)> = vec![];
+    for t in [4096usize, 8192, 16384, 32768, 65536, 131072, 262144, 1 << 20] {
+        for blk in [65535usize, 32768, 4096] {
+            combos.push((Plain::Xs { seed: 13, len: 0 }, Enc::Stored(blk), t));
+        }
+        if t > 131072 {
+            continue;
+        }
+        for lvl in [0u32, 1, 6, 9] {
+            combos.push((Plain::Xs { seed: 14, len: 0 }, Enc::Level(lvl), t));
+            if lvl == 0 {
+                continue;
+            }
+            combos.push((Plain::Lcg { seed: 15, len: 0, mask: 0x0f }, Enc::Level(lvl), t));
+            if t <= 65536 {
+                combos.push((Plain::Lcg { seed: 16, len: 0, mask: 0x03 }, Enc::Level(lvl), t));
+            }
+        }
+    }
+    let found = std::sync::Mutex::new(Vec::<(usize, usize, usize)>::new());
+    util::par_for(combos.len(), |i| {
+        let (g, enc, t) = &combos[combos.len() - 1 - i];
+        let data = g.with_len(t * 6 + 4096).bytes();
+        match len_crossing(&data, enc, *t) {
+            None => machinery(&format!("no length of {} reaches an encoded size of {}", g.to_json(), t)),
+            Some(n) => {
+                let before = flate_encode(enc, &data[..n - 1]).len();
+                let at = flate_encode(enc, &data[..n]).len();
+                if !(before <= *t && at > *t) {
+                    machinery("bisection did not find a crossing");
+                }
+                found.lock().unwrap().push((combos.len() - 1 - i, n, before));
+            }
+        }
+    });
+    let mut found = found.into_inner().unwrap();
+    found.sort();
+    let mut exact = 0u64;
+    let mut boundary_log = vec![];
+    for (ci, n, before) in &found {
+        let (g, enc, t) = &combos[*ci];
+        if before == t {
+            exact += 1;
+        }
+        if boundary_log.len() < 12 || *t == 32768 {
+            boundary_log.push(json!({"plain": g.to_json(), "encoder": format!("{:?}", enc), "boundary": t, "first_len_above": n, "encoded_len_one_below": before}));
+        }
+        for d in [-3i64, -2, -1, 0, 1, 2] {
+            let len = (*n as i64 + d).max(0) as usize;
+            cases.push(flate_case("flate compressed-size boundary", g.with_len(len), enc.clone()));
+        }
+    }
+    run.add("flate_boundary_combinations", combos.len() as u64);
+    run.add("flate_boundary_combinations_hitting_the_boundary_exactly", exact);
+    run.set("flate_compressed_size_boundaries", Value::Array(boundary_log));
+    // run: largest first
+    let mut order: Vec<usize> = (0..cases.len()).collect();
+    order.sort_by_key(|i| std::cmp::Reverse(cases[*i].plain.len()));
+    let above_1024 = AtomicU64::new(0);
+    let max_ratio_milli = AtomicU64::new(0);
+    let enc_over_32k = AtomicU64::new(0);
+    util::par_for(order.len(), |k| {
+        let c = &cases[order[k]];
+        run.eval(1);
+        let plain = c.plain.bytes();
+        let content = c.encode(&plain);
+        if content != plain {
+            run.nontrivial(1);
+        }
+        if !content.is_empty() && order[k] < n_ratio {
+            let r = plain.len() as u64 * 1000 / content.len() as u64;
+            max_ratio_milli.fetch_max(r, Ordering::Relaxed);
+            if plain.len() > 1024 * content.len() {
+                above_1024.fetch_add(1, Ordering::Relaxed);
+            }
+        }
+        if content.len() > 32768 {
+            enc_over_32k.fetch_add(1, Ordering::Relaxed);
+        }
+        let s = c.stream(content);
+        let res = decode_stream(&s, &plain, false);
+        drop(s);
+        drop(plain);
+        if !res.ok() {
+            cx.report(c, &res);
+        }
+    });
+    run.add("flate_size_cases", cases.len() as u64);
+    run.add("flate_ratio_cases", n_ratio as u64);
+    run.add("flate_ratio_cases_expanding_more_than_1024_to_1", above_1024.load(Ordering::Relaxed));
+    run.set("flate_max_expansion_ratio", json!(max_ratio_milli.load(Ordering::Relaxed) as f64 / 1000.0));
+    run.add("flate_size_cases_with_encoded_length_above_32768", enc_over_32k.load(Ordering::Relaxed));
+    if above_1024.load(Ordering::Relaxed) == 0 {
+        machinery("the ratio family no longer reaches 1024:1");
+    }
+    run.sample(json!({"part": "8 flate sizes", "case": cases[order[0]].to_json()}));
+    run.sample(json!({"part": "8 flate sizes", "case": cases[cases.len() - 1].to_json()}));
+}
+
+// ---------------------------------------------------------------------------------------------
+// part 9: compression of large and boundary-sized content through every entry point that compresses
+
+#[derive(Clone, Copy, Debug, PartialEq)]
+enum Via {
+    SCompress,
+    DCompress,
+    ChangeContentStream,
+    ChangePageContent,
+    XobjectForm,
+}
+
+const VIAS: [Via; 5] = [Via::SCompress, Via::DCompress, Via::ChangeContentStream, Via::ChangePageContent, Via::XobjectForm];
+
+impl Via {
+    fn name(self) -> &'static str {
+        match self {
+            Via::SCompress => "Stream::compress",
+            Via::DCompress => "Document::compress",
+            Via::ChangeContentStream => "Document::change_content_stream",
+            Via::ChangePageContent => "Document::change_page_content",
+            Via::XobjectForm => "xobject::form",
+        }
+    }
+    fn parse(s: &str) -> Via {
+        VIAS.iter().copied().find(|v| v.name() == s).unwrap_or_else(|| machinery("replay: unknown entry point"))
+    }
+}
+
+/// a DecodeParms entry on a stream that has NO Filter entry (legal, and without meaning there)
+#[derive(Clone, Debug, PartialEq)]
+struct Stale {
+    predictor: Option<i64>,
+    columns: i64,
+    early: Option<i64>,
+    array: bool,
+}
+
+impl Stale {
+    fn object(&self) -> Object {
+        let mut d = Dictionary::new();
+        if let Some(p) = self.predictor {
+            d.set("Predictor", Object::Integer(p));
+            d.set("Columns", Object::Integer(self.columns));
+        }
+        if let Some(e) = self.early {
+            d.set("EarlyChange", Object::Integer(e));
+        }
+        if self.array {
+            Object::Array(vec![Object::Dictionary(d)])
+        } else {
+            Object::Dictionary(d)
+        }
+    }
+    fn to_json(&self) -> Value {
+        json!({"Predictor": self.predictor, "Columns": self.columns, "EarlyChange": self.early, "as_array": self.array})
+    }
+    fn from_json(v: &Value) -> Option<Stale> {
+        if v.is_null() {
+            return None;
+        }
+        Some(Stale { predictor: v["Predictor"].as_i64(), columns: v["Columns"].as_i64().unwrap_or(1), early: v["EarlyChange"].as_i64(), array: v["as_array"].as_bool().unwrap_or(false) })
+    }
+}
+
+#[derive(Clone, Debug)]
+struct CompCase {
+    part: String,
+    plain: Plain,
+    via: Via,
+    /// DecodeParms present on the unfiltered start stream (Stream::compress / Document::compress only)
+    stale: Option<Stale>,
+}
+
+impl CompCase {
+    fn to_json(&self) -> Value {
+        json!({"kind": "compress", "part": self.part, "plain": self.plain.to_json(), "via": self.via.name(),
+            "decodeparms_without_filter": self.stale.as_ref().map(|s| s.to_json())})
+    }
+    fn from_json(v: &Value) -> CompCase {
+        CompCase { part: v["part"].as_str().unwrap_or("").into(), plain: Plain::from_json(&v["plain"]), via: Via::parse(v["via"].as_str().unwrap_or("")), stale: Stale::from_json(&v["decodeparms_without_filter"]) }
+    }
+}
+
+struct CountSink(usize);
+impl std::io::Write for CountSink {
+    fn write(&mut self, b: &[u8]) -> std::io::Result<usize> {
+        self.0 += b.len();
+        Ok(b.len())
+    }
+    fn flush(&mut self) -> std::io::Result<()> {
+        Ok(())
+    }
+}
+
+/// size of a one-object file holding `s`, written by lopdf with a classic cross-reference table:
+/// differs between two streams by exactly the difference of their written forms (plus possibly
+/// fewer digits in the startxref offset of the shorter one)
+fn written_size(s: &Stream) -> usize {
+    let mut d = Document::with_version("1.5");
+    d.reference_table.cross_reference_type = lopdf::xref::XrefType::CrossReferenceTable;
+    d.objects.insert((1, 0), Object::Stream(s.clone()));
+    d.max_id = 1;
+    let mut sink = CountSink(0);
+    if d.save_to(&mut sink).is_err() {
+        machinery("save_to a counting sink failed");
+    }
+    sink.0
+}
+
+fn doc_written_size(doc: &Document) -> usize {
+    let mut d = doc.clone();
+    d.reference_table.cross_reference_type = lopdf::xref::XrefType::CrossReferenceTable;
+    let mut sink = CountSink(0);
+    if d.save_to(&mut sink).is_err() {
+        machinery("save_to a counting sink failed");
+    }
+    sink.0
+}
+
+fn length_ok(s: &Stream) -> Result<(), String> {
+    match s.dict.get(b"Length") {
+        Ok(Object::Integer(n)) if *n == s.content.len() as i64 => Ok(()),
+        other => Err(format!("dict[Length] = {:?} but content.len() = {}", other.ok(), s.content.len())),
+    }
+}
+
+struct CompOut {
+    bad: Vec<String>,
+    /// the stream after the compressing call (None when the call itself failed)
+    after: Option<Stream>,
+    applied: bool,
+}
+
+fn comp_run(c: &CompCase) -> CompOut {
+    let plain = c.plain.bytes();
+    let mut bad = vec![];
+    let mut start_dict = Dictionary::new();
+    if let Some(st) = &c.stale {
+        start_dict.set("DecodeParms", st.object());
+    }
+    let sid = (1u32, 0u16);
+    let pid = (2u32, 0u16);
+    let mk_doc = |s: Stream| {
+        let mut doc = Document::with_version("1.5");
+        doc.objects.insert(sid, Object::Stream(s));
+        let mut page = Dictionary::new();
+        page.set("Type", Object::Name(b"Page".to_vec()));
+        page.set("Contents", Object::Reference(sid));
+        doc.objects.insert(pid, Object::Dictionary(page));
+        doc.max_id = 2;
+        doc
+    };
+    let take = |doc: &mut Document| match doc.objects.remove(&sid) {
+        Some(Object::Stream(s)) => Ok(s),
+        _ => Err("the stream object is gone".to_string()),
+    };
+    let r: Result<Result<Stream, String>, String> = match c.via {
+        Via::SCompress => util::guard(|| {
+            let mut s = Stream::new(start_dict.clone(), plain.clone());
+            s.compress().map_err(|e| format!("compress returned Err: {}", e))?;
+            Ok(s)
+        }),
+        Via::DCompress => util::guard(|| {
+            let mut doc = mk_doc(Stream::new(start_dict.clone(), plain.clone()));
+            doc.compress();
+            take(&mut doc)
+        }),
+        Via::ChangeContentStream => util::guard(|| {
+            let mut doc = mk_doc(Stream::new(start_dict.clone(), b"q Q".to_vec()));
+            doc.change_content_stream(sid, plain.clone());
+            take(&mut doc)
+        }),
+        Via::ChangePageContent => util::guard(|| {
+            let mut doc = mk_doc(Stream::new(start_dict.clone(), b"q Q".to_vec()));
+            doc.change_page_content(pid, plain.clone()).map_err(|e| format!("change_page_content returned Err: {}", e))?;
+            take(&mut doc)
+        }),
+        Via::XobjectForm => util::guard(|| Ok(lopdf::xobject::form(vec![0.0, 0.0, 10.0, 10.0], vec![1.0, 0.0, 0.0, 1.0, 0.0, 0.0], plain.clone()))),
+    };
+    let after = match r {
+        Err(p) => {
+            bad.push(p);
+            return CompOut { bad, after: None, applied: false };
+        }
+        Ok(Err(e)) => {
+            bad.push(e);
+            return CompOut { bad, after: None, applied: false };
+        }
+        Ok(Ok(s)) => s,
+    };
+    let applied = after.dict.has(b"Filter");
+    // the uncompressed form of the same stream: the start stream, or (entry points that build the
+    // dictionary themselves) the resulting dictionary without the entries compress() adds
+    let reference = match c.via {
+        Via::SCompress | Via::DCompress => Stream::new(start_dict.clone(), plain.clone()),
+        _ => {
+            let mut d = after.dict.clone();
+            d.remove(b"Filter");
+            d.remove(b"DecodeParms");
+            Stream::new(d, plain.clone())
+        }
+    };
+    if after.content.len() > plain.len() {
+        bad.push(format!("compress made the content longer: {} -> {} bytes", plain.len(), after.content.len()));
+    }
+    let (wa, wr) = (written_size(&after), written_size(&reference));
+    if wa > wr {
+        bad.push(format!("compress made the stream object longer as written: {} -> {} bytes", wr, wa));
+    }
+    if let Err(e) = length_ok(&after) {
+        bad.push(e);
+    }
+    if applied {
+        let f = after.filters().map(|v| v.iter().map(|n| n.to_vec()).collect::<Vec<_>>()).unwrap_or_default();
+        if f != vec![b"FlateDecode".to_vec()] {
+            bad.push(format!("compress produced an unexpected Filter: {}", vharness::objjson::show_dict(&after.dict)));
+        }
+        match util::guard(|| after.decompressed_content()) {
+            Err(p) => bad.push(p),
+            Ok(Err(e)) => bad.push(format!("decompressed_content of the compressed stream returned Err: {}", e)),
+            Ok(Ok(d)) => {
+                if d != plain {
+                    bad.push(format!("decompressed_content of the compressed stream: {}", compare(&d, &plain).describe()));
+                }
+            }
+        }
+    } else if after.content != plain {
+        bad.push(format!("stream left without Filter but its content changed: {}", compare(&after.content, &plain).describe()));
+    }
+    match util::guard(|| after.get_plain_content()) {
+        Err(p) => bad.push(p),
+        Ok(Err(e)) => bad.push(format!("get_plain_content returned Err: {}", e)),
+        Ok(Ok(d)) => {
+            if d != plain {
+                bad.push(format!("get_plain_content: {}", compare(&d, &plain).describe()));
+            }
+        }
+    }
+    // and back: Stream::decompress and Document::decompress
+    for doc_level in [false, true] {
+        let what = if doc_level { "Document::decompress" } else { "Stream::decompress" };
+        let r = util::guard(|| {
+            if doc_level {
+                let mut doc = mk_doc(after.clone());
+                doc.decompress();
+                take(&mut doc)
+            } else {
+                let mut s = after.clone();
+                match s.decompress() {
+                    Ok(()) => Ok(s),
+                    // a stream without Filter answers with an error and stays as it is
+                    Err(_) if !applied => Ok(s),
+                    Err(e) => Err(format!("returned Err: {}", e)),
+                }
+            }
+        });
+        match r {
+            Err(p) => bad.push(format!("{}: {}", what, p)),
+            Ok(Err(e)) => bad.push(format!("{} {}", what, e)),
+            Ok(Ok(s)) => {
+                if let Err(e) = length_ok(&s) {
+                    bad.push(format!("after {}: {}", what, e));
+                }
+                if s.dict.has(b"Filter") {
+                    // Document::decompress ignores errors: the stream must then still decode
+                    match util::guard(|| s.get_plain_content()) {
+                        Ok(Ok(d)) if d == plain => {}
+                        _ => bad.push(format!("after {}: the stream still has a Filter and does not decode to the original bytes", what)),
+                    }
+                } else if s.content != plain {
+                    bad.push(format!("after {}: {}", what, compare(&s.content, &plain).describe()));
+                }
+            }
+        }
+    }
+    CompOut { bad, after: Some(after), applied }
+}
+
+/// `compress-stale-decodeparms`: the unfiltered start stream carried a DecodeParms entry naming a
+/// PNG predictor; compress() added /Filter /FlateDecode next to it; the compressed stream decodes
+/// to the original bytes once that entry is taken out; and the same case without the entry passes.
+fn classify_comp(c: &CompCase, out: &CompOut) -> Option<&'static str> {
+    let st = c.stale.as_ref()?;
+    if !matches!(c.via, Via::SCompress | Via::DCompress) || !st.predictor.map(|p| (10..=15).contains(&p)).unwrap_or(false) {
+        return None;
+    }
+    let after = out.after.as_ref()?;
+    if !(out.applied && after.dict.has(b"DecodeParms")) {
+        return None;
+    }
+    // every complaint must be about decoding, none about lengths
+    if out.bad.iter().any(|b| b.contains("longer") || b.contains("Length") || b.contains("unexpected Filter")) {
+        return None;
+    }
+    let mut fixed = after.clone();
+    fixed.dict.remove(b"DecodeParms");
+    let plain = c.plain.bytes();
+    if !matches!(util::guard(|| fixed.decompressed_content()), Ok(Ok(d)) if d == plain) {
+        return None;
+    }
+    let mut n = c.clone();
+    n.stale = None;
+    if !comp_run(&n).bad.is_empty() {
+        return None;
+    }
+    Some("compress-stale-decodeparms")
+}
+
+const COMP_EXPECT: &str = "after compressing: content and written stream object not longer than before, dict[Length] == content.len(), decoding (decompressed_content, get_plain_content, Stream::decompress, Document::decompress) returns the original bytes";
+
+fn part9_compress(cx: &Ctx) {
+    let run = cx.run;
+    let m = 1usize << 20;
+    let mut cases: Vec<CompCase> = vec![];
+    let mut push = |part: &str, plain: Plain, vias: &[Via]| {
+        for v in vias {
+            cases.push(CompCase { part: part.into(), plain: plain.clone(), via: *v, stale: None });
+        }
+    };
+    // (a) incompressible content: zlib's stored-block framing makes the best zlib form LONGER than the
+    // content, by 11 bytes up to ~32 KiB and 5 more for each further block
+    let mut sizes: Vec<usize> = vec![0, 1, 19, 20, 21, 1000, 40_000, 70_000, 100_000, 150_000, 200_000, 300_000, 1_000_003];
+    for k in 15..=20u32 {
+        for d in [-22i64, -21, -20, -19, -17, -16, -12, -11, -6, -5, -1, 0, 1, 5, 6, 11, 19, 20] {
+            if k >= 18 && ![-1, 0, 1].contains(&d) {
+                continue;
+            }
+            sizes.push(((1i64 << k) + d) as usize);
+        }
+    }
+    sizes.sort();
+    sizes.dedup();
+    for n in &sizes {
+        push("compress incompressible", Plain::Xs { seed: 1, len: *n }, &VIAS);
+        if *n < 140_000 {
+            push("compress incompressible", Plain::Xs { seed: 2, len: *n }, &[Via::SCompress, Via::ChangePageContent]);
+            push("compress incompressible", Plain::Lcg { seed: 3, len: *n, mask: 0xff }, &[Via::DCompress]);
+        }
+    }
+    // (b) large content whose best zlib form saves about as much as the /Filter entry costs
+    // (threshold in Stream::compress: 19): incompressible bytes followed by a run of k bytes
+    let bases = [(31u64, 33_000usize), (32, 66_000), (33, 140_000)];
+    let ks: Vec<usize> = (0..160).collect();
+    let savings: Vec<std::sync::Mutex<Vec<i64>>> = bases.iter().map(|_| std::sync::Mutex::new(vec![0i64; ks.len()])).collect();
+    util::par_for(bases.len() * ks.len(), |i| {
+        let (bi, k) = (i / ks.len(), ks[i % ks.len()]);
+        let p = Plain::XsRun { seed: bases[bi].0, len: bases[bi].1, byte: b'a', run: k }.bytes();
+        let z = flate_best_len(&p);
+        savings[bi].lock().unwrap()[i % ks.len()] = p.len() as i64 - z as i64;
+    });
+    let mut threshold_found = 0u64;
+    for (bi, (seed, len)) in bases.iter().enumerate() {
+        let sv = savings[bi].lock().unwrap().clone();
+        for want in 16..=23i64 {
+            if let Some(k) = sv.iter().position(|s| *s == want) {
+                threshold_found += 1;
+                push("compress saving threshold", Plain::XsRun { seed: *seed, len: *len, byte: b'a', run: ks[k] }, &VIAS);
+            }
+        }
+    }
+    run.add("compress_threshold_contents_with_saving_16_to_23", threshold_found);
+    // (c) highly compressible content of 2^20 .. 2^23 bytes: the compressed form expands by more than
+    // 1024:1 when decoded again
+    let mut big = vec![m, 2 * m + 1, 4 * m, 5 * m + 7, 8 * m];
+    if run.thorough {
+        big.extend([16 * m + 1, 64 * m]);
+    }
+    for n in &big {
+        push("compress highly compressible", Plain::Run { byte: 0, len: *n }, &VIAS);
+        push("compress highly compressible", Plain::Run { byte: 0xff, len: *n }, &[Via::SCompress, Via::DCompress]);
+        push("compress highly compressible", Plain::Period { pat: b"ab".to_vec(), len: *n }, &[Via::DCompress, Via::ChangeContentStream]);
+        push("compress highly compressible", Plain::Period { pat: vec![0, 0, 1, 0, 1, 1, 0], len: *n }, &[Via::SCompress, Via::XobjectForm]);
+    }
+    // (d) ordinary compressible content around the powers of two
+    for k in [10u32, 13, 15, 16, 17, 20] {
+        for d in [-1i64, 0, 1] {
+            let n = ((1i64 << k) + d) as usize;
+            push("compress compressible", Plain::Period { pat: b"BT /F1 12 Tf 72 712 Td (Hello) Tj ET\n".to_vec(), len: n }, &VIAS);
+            push("compress compressible", Plain::Lcg { seed: 41, len: n, mask: 0x0f }, &[Via::SCompress, Via::DCompress]);
+        }
+    }
+    // (e) a DecodeParms entry without a Filter entry on the stream that gets compressed
+    let stales = [
+        Stale { predictor: Some(12), columns: 4, early: None, array: false },
+        Stale { predictor: Some(15), columns: 1, early: None, array: false },
+        Stale { predictor: Some(10), columns: 7, early: None, array: true },
+        Stale { predictor: Some(1), columns: 4, early: None, array: false },
+        Stale { predictor: None, columns: 1, early: Some(0), array: false },
+        Stale { predictor: None, columns: 1, early: None, array: false },
+        Stale { predictor: None, columns: 1, early: None, array: true },
+    ];
+    for st in &stales {
+        for pl in [Plain::Period { pat: b"the quick brown fox ".to_vec(), len: 1000 }, Plain::Run { byte: 0, len: 100_000 }, Plain::Xs { seed: 5, len: 300 }, Plain::of(b"")] {
+            for v in [Via::SCompress, Via::DCompress] {
+                cases.push(CompCase { part: "compress with DecodeParms but no Filter".into(), plain: pl.clone(), via: v, stale: Some(st.clone()) });
+            }
+        }
+    }
+    let mut order: Vec<usize> = (0..cases.len()).collect();
+    order.sort_by_key(|i| std::cmp::Reverse(cases[*i].plain.len()));
+    let applied = AtomicU64::new(0);
+    let not_applied = AtomicU64::new(0);
+    util::par_for(order.len(), |k| {
+        let c = &cases[order[k]];
+        run.eval(1);
+        let out = comp_run(c);
+        if out.applied {
+            applied.fetch_add(1, Ordering::Relaxed);
+            run.nontrivial(1);
+        } else {
+            not_applied.fetch_add(1, Ordering::Relaxed);
+        }
+        if !out.bad.is_empty() {
+            cx.failed.fetch_add(1, Ordering::Relaxed);
+            run.fail(classify_comp(c, &out), c.to_json(), &out.bad.join("; "), COMP_EXPECT);
+        }
+    });
+    run.add("compress_cases", cases.len() as u64);
+    run.add("compress_cases_where_flatedecode_was_applied", applied.load(Ordering::Relaxed));
+    run.add("compress_cases_left_uncompressed", not_applied.load(Ordering::Relaxed));
+    run.sample(json!({"part": "9 compress", "case": cases[order[0]].to_json()}));
+    run.sample(json!({"part": "9 compress", "case": cases[cases.len() - 1].to_json()}));
+}
+
+// ---------------------------------------------------------------------------------------------
 
 fn main() {
     let run = Run::from_args("C09", "exploration");
@@ -1656,7 +2394,12 @@ fn main() {
          FlateDecode+DecodeParms and through the public png::decode_row; (2) frame geometries x 5^rows filter assignments x Predictor values x \
          dictionary/array parameter form x Flate/LZW carrier; (3) ASCII85 inputs of length 0..3, full groups, z arrangements, white-space \
          positions, missing EOD; (4) LZW strings and long inputs for EarlyChange absent/1/0; (5) Flate stored blocks and flate2 levels; \
-         (6) all 39 filter chains; (7) operation sequences. A case is non-trivial when the encoded stream differs from the plain bytes \
+         (6) all 39 filter chains; (7) operation sequences; (8) Flate size families: constant runs and short periods of 2^20..2^23 bytes \
+         (expansion above 1024:1), output lengths 2^k-1..2^k+1, encoded lengths just below/at/above 2^12..2^20 (plain length found by bisection), \
+         every legal zlib header, predictor rows wider than 2^16 bytes; (9) compression through Stream::compress, Document::compress, \
+         change_content_stream, change_page_content and xobject::form of incompressible (xorshift64, fixed seeds) content around 2^15..2^20, of \
+         content whose best zlib form saves 16..23 bytes, of highly compressible content up to 2^23 bytes, and of streams carrying DecodeParms \
+         without Filter. A case is non-trivial when the encoded stream differs from the plain bytes \
          (measured per case); part-7 states are counted separately",
     );
     run.assume("the reference encoders in harness/src/refcodec.rs implement PNG 1.2 §6, ISO 32000-1 §7.4.3/§7.4.4 (TIFF 6.0 §13) and RFC 1950/1951 stored blocks; they are self-tested against fixed vectors from those documents and against reference decoders on every run");
@@ -1677,6 +2420,8 @@ fn main() {
     timed("5_flate", &part5_flate);
     timed("6_chains", &part6_chains);
     timed("7_op_sequences", &part7_ops);
+    timed("8_flate_sizes", &part8_flate_sizes);
+    timed("9_compress_sizes", &part9_compress);
     run.set("part_wall_s", Value::Object(timings));
     run.add("failing_cases_total", cx.failed.load(Ordering::Relaxed));
     // pixel data of the larger frames, the long LZW inputs and the Flate/chain plain texts are fixed
@@ -1719,6 +2464,22 @@ fn replay(run: &Run, path: &std::path::Path) -> ! {
             let r = decode_row_direct(case["filter_type"].as_u64().unwrap_or(0) as u8, case["bpp"].as_u64().unwrap_or(1) as usize, case["ul"].as_u64().unwrap_or(0) as u8);
             println!("observed: {:?} (bytes compared, wrong bytes, first wrong byte not explained by png-avg)", r);
             run.finish_replay(!matches!(r, Ok((_, 0, _))))
+        }
+        Some("compress") => {
+            let c = CompCase::from_json(&case);
+            let a = comp_run(&c);
+            let b = comp_run(&c);
+            if a.bad != b.bad {
+                machinery("replay not deterministic");
+            }
+            if let Some(s) = &a.after {
+                println!("after {}: dict={} content.len()={} (plain length {})", c.via.name(), vharness::objjson::show_dict(&s.dict), s.content.len(), c.plain.len());
+            }
+            println!("observed: {}", if a.bad.is_empty() { "all conditions hold".to_string() } else { a.bad.join("; ") });
+            if !a.bad.is_empty() {
+                println!("classified as: {:?}", classify_comp(&c, &a));
+            }
+            run.finish_replay(!a.bad.is_empty())
         }
         Some("ops") => {
             let a = replay_ops(&case);
